@@ -544,7 +544,7 @@ theorem D28_header_inside_subdict :
     rw [substPh_none (kw := kwBlock) 0 r (c := 'B') (kw' := "LOCKCOMMENT".toList) (by decide)
       "\n}\n".toList (by decide), padSix_zero] at h
     have e : exD28Text = "a 1;\ns\n{\n    ".toList ++ (kwBlock ++ "000000".toList) ++ "  ".toList ++
-        (kwBlock ++ "000000".toList) ++ [';'] ++ "\n}\n".toList := by decide
+        (kwBlock ++ "000000".toList) ++ [';'] ++ "\n}\n".toList := by decide +kernel
     rw [e]; exact h
   rw [C12_header_prepend 0 _ _ (by rw [hfound]) (by decide), hfound]
   simp
